@@ -589,7 +589,7 @@ def real_sa():
     return pkg
 
 
-def replay(run, params, witness, tol=1e-9):
+def replay(run, params, witness, tol=1e-9, patch_rng=True):
     """Run the harness concretely against the real code. -> dict(status, failed, exc)"""
     h = ConcH(real_sa(), witness, tol)
     h.tape = Tape(witness)
@@ -598,7 +598,9 @@ def replay(run, params, witness, tol=1e-9):
             warnings.simplefilter("ignore")
             import numpy as np
 
-            with np.errstate(all="ignore"), h.tape.patch():
+            import contextlib
+
+            with np.errstate(all="ignore"), (h.tape.patch() if patch_rng else contextlib.nullcontext()):
                 run(h, **params)
     except AssumptionFailed as e:
         return {"status": "outside-assumptions", "failed": [], "exc": str(e)}
